@@ -44,6 +44,14 @@ type P = (i32, i32);
 const TOLS: [(i64, i64); 6] = [(0, 1), (1, 4), (1, 2), (3, 4), (1, 1), (4, 1)];
 const TOL_3_4: (i64, i64) = (3, 4);
 
+/// at most `max` samples per stage (the engine keeps 8 in total)
+fn sample_slot(slot: &std::sync::atomic::AtomicUsize, max: usize, stats: &Stats) -> bool {
+    stats.want_sample() && slot.fetch_add(1, std::sync::atomic::Ordering::Relaxed) < max
+}
+static IUP_SAMPLES: std::sync::atomic::AtomicUsize = std::sync::atomic::AtomicUsize::new(0);
+static TABLE_SAMPLES: std::sync::atomic::AtomicUsize = std::sync::atomic::AtomicUsize::new(0);
+static DRAW_SAMPLES: std::sync::atomic::AtomicUsize = std::sync::atomic::AtomicUsize::new(0);
+
 #[derive(Default)]
 struct Cnt(BTreeMap<String, u64>);
 impl Cnt {
@@ -210,7 +218,6 @@ fn infer_all(coords: &[P], ends: &[usize], expl: &[Option<P>]) -> Vec<Inf> {
 
 struct IupOut {
     required: Vec<bool>,
-    optional: usize,
 }
 
 /// Runs `iup_delta_optimize` and checks its answer against the exact inference.
@@ -229,7 +236,6 @@ fn check_iup(coords: &[P], ends: &[usize], deltas: &[P], tol: (i64, i64)) -> Res
     }
     let describe = || format!("coords {coords:?} ends {ends:?} deltas {deltas:?} tolerance {tol_f} flags {:?}", out.iter().map(|d| d.required as u8).collect::<Vec<_>>());
     let mut expl: Vec<Option<P>> = vec![None; n];
-    let mut optional = 0;
     for (i, g) in out.iter().enumerate() {
         if g.required {
             if (g.x as i32, g.y as i32) != deltas[i] {
@@ -237,7 +243,6 @@ fn check_iup(coords: &[P], ends: &[usize], deltas: &[P], tol: (i64, i64)) -> Res
             }
             expl[i] = Some(deltas[i]);
         } else {
-            optional += 1;
             // the value carried by an optional delta is what a dense encoding would store
             let (ex, ey) = (Q::int(g.x as i64 - deltas[i].0 as i64), Q::int(g.y as i64 - deltas[i].1 as i64));
             if !within_tol(ex, ey, tol) {
@@ -259,7 +264,7 @@ fn check_iup(coords: &[P], ends: &[usize], deltas: &[P], tol: (i64, i64)) -> Res
             ));
         }
     }
-    Ok(IupOut { required: out.iter().map(|d| d.required).collect(), optional })
+    Ok(IupOut { required: out.iter().map(|d| d.required).collect() })
 }
 
 // ---- exhaustive spaces -----------------------------------------------------------------------------------------
@@ -277,12 +282,13 @@ struct ExSpace {
     n_quick: u32,
     n_thorough: u32,
 }
-fn ex_spaces() -> [ExSpace; 4] {
+fn ex_spaces() -> [ExSpace; 5] {
     [
         ExSpace { name: "x-only: x in {0,1,2,5}, dx in -2..=2, y = dy = 0", symbols: 20, inner: 3, n_quick: 5, n_thorough: 6 },
         ExSpace { name: "y-only: y in {0,1,2,5}, dy in -2..=2, x = dx = 0", symbols: 20, inner: 3, n_quick: 5, n_thorough: 5 },
         ExSpace { name: "2-D small: (x,y) in {0,1,2}x{0,1}, (dx,dy) in {-1,0,1}^2", symbols: 54, inner: 2, n_quick: 3, n_thorough: 4 },
-        ExSpace { name: "2-D: (x,y) in {0,1,2,5}^2, (dx,dy) in {-2..2}^2", symbols: 400, inner: 2, n_quick: 2, n_thorough: 3 },
+        ExSpace { name: "2-D: (x,y) in {0,1,2,5}^2, (dx,dy) in {-2..2}^2", symbols: 400, inner: 2, n_quick: 2, n_thorough: 2 },
+        ExSpace { name: "2-D medium: (x,y) in {0,1,2,5}^2, (dx,dy) in {-1,0,1}^2", symbols: 144, inner: 2, n_quick: 2, n_thorough: 3 },
     ]
 }
 fn ex_symbol(space: u8, s: u32) -> (P, P) {
@@ -291,7 +297,8 @@ fn ex_symbol(space: u8, s: u32) -> (P, P) {
         0 => ((CO4[(s / 5) as usize], 0), (s % 5 - 2, 0)),
         1 => ((0, CO4[(s / 5) as usize]), (0, s % 5 - 2)),
         2 => ((s % 3, (s / 3) % 2), ((s / 6) % 3 - 1, (s / 18) % 3 - 1)),
-        _ => ((CO4[(s % 4) as usize], CO4[((s / 4) % 4) as usize]), ((s / 16) % 5 - 2, (s / 80) % 5 - 2)),
+        3 => ((CO4[(s % 4) as usize], CO4[((s / 4) % 4) as usize]), ((s / 16) % 5 - 2, (s / 80) % 5 - 2)),
+        _ => ((CO4[(s % 4) as usize], CO4[((s / 4) % 4) as usize]), ((s / 16) % 3 - 1, (s / 48) % 3 - 1)),
     }
 }
 
@@ -447,9 +454,9 @@ fn outline(cmin: usize, cmax: usize, pmin: usize, pmax: usize, lim: i32) -> impl
 
 /// deltas for `coords`: mode 0/1 linear in the coordinate (+ sparse noise), 2 constant (+ sparse noise), 3 all zero,
 /// 4 small random, 5 wide random
-fn delta_field(coords: Vec<P>, dl: i32, allow_zero: bool) -> BoxedStrategy<Vec<P>> {
+fn delta_field(coords: Vec<P>, dl: i32) -> BoxedStrategy<Vec<P>> {
     let n = coords.len();
-    let modes: Vec<u8> = if allow_zero { vec![0, 0, 0, 1, 1, 2, 3, 4, 5] } else { vec![0, 0, 0, 1, 1, 2, 4, 5] };
+    let modes: Vec<u8> = vec![0, 0, 0, 1, 1, 2, 3, 4, 5];
     (proptest::sample::select(modes), -3i32..=3, -3i32..=3, proptest::sample::select(vec![1i32, 1, 2, 3, 7]), -40i32..=40, -40i32..=40)
         .prop_flat_map(move |(mode, a, c, k, b, b2)| {
             let noise: BoxedStrategy<i32> = match mode {
@@ -488,7 +495,7 @@ fn iup_strategy() -> impl Strategy<Value = IupCase> {
     lim.prop_flat_map(|lim| outline(1, 6, 1, 60, lim))
         .prop_flat_map(|o| {
             let coords = o.coords();
-            (Just(o), prop_oneof![4 => Just(200i32), 1 => Just(16000)].prop_flat_map(move |dl| delta_field(coords.clone(), dl, true)), 0u8..TOLS.len() as u8)
+            (Just(o), prop_oneof![4 => Just(200i32), 1 => Just(16000)].prop_flat_map(move |dl| delta_field(coords.clone(), dl)), 0u8..TOLS.len() as u8)
         })
         .prop_map(|(outline, deltas, tol)| IupCase { outline, deltas, tol })
 }
@@ -509,14 +516,13 @@ fn test_iup(c: &IupCase, stats: &Stats) -> CaseResult {
         _ => "iup|points>60",
     });
     stats.class_n("iup|optional-deltas", real_opt as u64);
-    let _ = r.optional;
     if real_opt > 0 {
         stats.class("iup|with-optional");
         if real_opt < n {
             stats.class("iup|mixed-required-and-optional");
         }
         stats.nontrivial(hash_json(c));
-        if stats.want_sample() {
+        if real_opt < n && sample_slot(&IUP_SAMPLES, 2, stats) {
             stats.sample(json!({"stage": "iup-random", "contours": c.outline.contours.iter().map(|c| c.len()).collect::<Vec<_>>(), "tolerance": tol.0 as f64 / tol.1 as f64,
                 "optional": real_opt, "first_points": c.outline.contours[0].iter().take(6).collect::<Vec<_>>(), "first_deltas": c.deltas.iter().take(6).collect::<Vec<_>>()}));
         }
@@ -584,8 +590,6 @@ struct Params {
     lim: i32,
     /// |delta| limit per tuple
     dl: i32,
-    /// tuples whose deltas are all zero (hence all optional) may be generated
-    allow_zero: bool,
     max_glyphs: usize,
     max_tuples: usize,
     /// 0 = draw sizes, 1 = table sizes, 2 = bulk (long offsets)
@@ -637,7 +641,7 @@ fn shaped_src() -> impl Strategy<Value = Src> {
 
 fn tuple_src(coords: Vec<P>, pr: Params) -> BoxedStrategy<Src> {
     let big = coords.len() > 1500;
-    let opt = (delta_field(coords, pr.dl, pr.allow_zero), prop_oneof![2 => Just(0u8), 1 => 1u8..TOLS.len() as u8]).prop_map(|(deltas, tol)| Src::Opt { deltas, tol });
+    let opt = (delta_field(coords, pr.dl), prop_oneof![2 => Just(0u8), 1 => 1u8..TOLS.len() as u8]).prop_map(|(deltas, tol)| Src::Opt { deltas, tol });
     if big {
         return prop_oneof![6 => opt, 1 => (prop_oneof![Just(1i32), Just(-1i32)]).prop_map(|scale| Src::CopyPrev { scale })].boxed();
     }
@@ -724,7 +728,7 @@ fn shaped_required(segs: &[(u16, u16, u8)], n: usize) -> Vec<(usize, u8, u8)> {
     out
 }
 
-fn build_model(c: &GvarCase, pr: Params, stats: &Stats) -> Result<Vec<BGlyph>, Fail> {
+fn build_model(c: &GvarCase, pr: Params) -> Result<Vec<BGlyph>, Fail> {
     if c.regions.is_empty() || c.regions.iter().any(|r| r.len() != c.regions[0].len() || r.is_empty()) {
         return Err(fail("harness", "malformed replay case (regions)".into()));
     }
@@ -780,11 +784,6 @@ fn build_model(c: &GvarCase, pr: Params, stats: &Stats) -> Result<Vec<BGlyph>, F
                     }
                 },
             };
-            if !pr.allow_zero && !req.iter().any(|r| *r) {
-                // excluded by construction: a tuple without any required delta (all deltas zero), see known findings
-                stats.class_n("excluded_known", 1);
-                continue;
-            }
             tuples.push(BTuple { tents, deltas, req, tol });
         }
         model.push(BGlyph { coords, ends, tuples });
@@ -845,9 +844,6 @@ impl Rd<'_> {
     fn u32(&mut self) -> Result<u32, String> {
         let s = self.take(4)?;
         Ok(u32::from_be_bytes([s[0], s[1], s[2], s[3]]))
-    }
-    fn left(&self) -> usize {
-        self.b.len().saturating_sub(self.p)
     }
 }
 
@@ -977,13 +973,8 @@ fn decode_gvar(b: &[u8], npts: &[usize]) -> Result<DecGvar, String> {
                 Some(p) => p.len(),
                 None => npts[g],
             };
-            // convention of the writer: "all points" followed by no delta bytes at all = no explicit delta
-            let (dx, dy) = if points.is_none() && tr.left() == 0 {
-                (vec![], vec![])
-            } else {
-                let all = dec_deltas(&mut tr, nd * 2).map_err(|e| format!("glyph {g} tuple {t} deltas ({nd} points, {} data bytes): {e}", td.len()))?;
-                (all[..nd].to_vec(), all[nd..].to_vec())
-            };
+            let all = dec_deltas(&mut tr, nd * 2).map_err(|e| format!("glyph {g} tuple {t} deltas ({nd} points, {} data bytes): {e}", td.len()))?;
+            let (dx, dy) = (all[..nd].to_vec(), all[nd..].to_vec());
             tuples.push(DecTuple { peak, inter, private, embedded, points, dx, dy });
         }
         glyphs.push(Some((shared_points.is_some(), tuples)));
@@ -1174,10 +1165,10 @@ fn boundary_hit(cnt: &Cnt) -> bool {
     cnt.0.keys().any(|k| k.starts_with("points|") || k.starts_with("deltas|"))
 }
 
-const TABLE_PARAMS: Params = Params { lim: 12000, dl: 16000, allow_zero: true, max_glyphs: 12, max_tuples: 6, sizes: 1, locs: 0 };
+const TABLE_PARAMS: Params = Params { lim: 12000, dl: 16000, max_glyphs: 12, max_tuples: 6, sizes: 1, locs: 0 };
 
 fn test_table(c: &GvarCase, stats: &Stats) -> CaseResult {
-    let model = build_model(c, TABLE_PARAMS, stats)?;
+    let model = build_model(c, TABLE_PARAMS)?;
     let bytes = build_gvar(&model, c.regions[0].len(), c.perm)?;
     let mut cnt = Cnt::default();
     let (dec, _) = check_table(&model, &bytes, &mut cnt)?;
@@ -1186,7 +1177,7 @@ fn test_table(c: &GvarCase, stats: &Stats) -> CaseResult {
     cnt.flush(stats);
     if optional || boundary_hit(&cnt) {
         stats.nontrivial(hash_json(c));
-        if stats.want_sample() && model.iter().any(|g| g.tuples.len() > 1) {
+        if model.iter().any(|g| g.tuples.len() > 1) && sample_slot(&TABLE_SAMPLES, 3, stats) {
             stats.sample(json!({"stage": "gvar-table", "axes": c.regions[0].len(), "regions": c.regions, "glyph_points": model.iter().map(|g| g.coords.len()).collect::<Vec<_>>(),
                 "tuples_per_glyph": model.iter().map(|g| g.tuples.len()).collect::<Vec<_>>(), "required_per_tuple": model.iter().map(|g| g.tuples.iter().map(|t| t.req.iter().filter(|r| **r).count()).collect::<Vec<_>>()).collect::<Vec<_>>(),
                 "table_bytes": bytes.len(), "long_offsets": dec.long}));
@@ -1207,7 +1198,7 @@ struct OffsetsCase {
     /// deltas of the filler glyph (cycled), all non-zero bytes
     fill: Vec<i32>,
 }
-const BULK_PARAMS: Params = Params { lim: 12000, dl: 16000, allow_zero: false, max_glyphs: 3, max_tuples: 5, sizes: 2, locs: 0 };
+const BULK_PARAMS: Params = Params { lim: 12000, dl: 16000, max_glyphs: 3, max_tuples: 5, sizes: 2, locs: 0 };
 
 fn offsets_strategy() -> impl Strategy<Value = OffsetsCase> {
     (
@@ -1237,7 +1228,7 @@ fn test_offsets(c: &OffsetsCase, stats: &Stats) -> CaseResult {
         return Err(fail("harness", "malformed replay case (fill)".into()));
     }
     let naxes = c.base.regions[0].len();
-    let mut model = build_model(&c.base, BULK_PARAMS, stats)?;
+    let mut model = build_model(&c.base, BULK_PARAMS)?;
     // size of a dense all-byte tuple stream of np points: 2 * (np + ceil(np / 64)); steer the filler's point count
     let stream = |np: usize| 2 * (np + np.div_ceil(64));
     // (a tuple's data size is a u16: fillers are capped at 15000 points and multiplied instead)
@@ -1294,7 +1285,7 @@ fn test_offsets(c: &OffsetsCase, stats: &Stats) -> CaseResult {
 // part 3: draw route
 // ---------------------------------------------------------------------------------------------------------------
 
-const DRAW_PARAMS: Params = Params { lim: 4000, dl: 2000, allow_zero: false, max_glyphs: 5, max_tuples: 6, sizes: 0, locs: 3 };
+const DRAW_PARAMS: Params = Params { lim: 4000, dl: 2000, max_glyphs: 5, max_tuples: 6, sizes: 0, locs: 3 };
 
 /// simple glyph, every point on-curve, coordinates as 16-bit deltas (hand encoded, independent of write-fonts)
 fn encode_glyph(contours: &[Vec<P>]) -> Vec<u8> {
@@ -1420,7 +1411,7 @@ struct RefPoint {
     hi: [i128; 2],
     err: [i128; 2],
 }
-fn reference(gm: &BGlyph, expl: &[Vec<Option<P>>], infs: &[Vec<Inf>], loc: &[i16]) -> (Vec<RefPoint>, usize) {
+fn reference(gm: &BGlyph, infs: &[Vec<Inf>], loc: &[i16]) -> (Vec<RefPoint>, usize) {
     let np = gm.coords.len();
     let mut out: Vec<RefPoint> = gm.coords.iter().map(|c| RefPoint { lo: [(c.0 as i128) << 40, (c.1 as i128) << 40], hi: [(c.0 as i128) << 40, (c.1 as i128) << 40], err: [0, 0] }).collect();
     let mut active = 0;
@@ -1436,7 +1427,6 @@ fn reference(gm: &BGlyph, expl: &[Vec<Option<P>>], infs: &[Vec<Inf>], loc: &[i16
             continue;
         }
         active += 1;
-        let _ = &expl[ti];
         for i in 0..np {
             let f = &infs[ti][i];
             for (ax, a) in [f.x, f.y].iter().enumerate() {
@@ -1456,11 +1446,12 @@ fn test_draw(c: &GvarCase, stats: &Stats) -> CaseResult {
     draw_check(c, DRAW_PARAMS, stats)
 }
 
-/// Known finding, kept reproducible here and excluded by construction from `draw`: a tuple without any required delta
-/// (all deltas zero and optional, which is what `iup_delta_optimize` returns for an unchanged glyph) is written as
-/// "all points" followed by no delta bytes; skrifa fails to read such a tuple and then drops the deltas of *every*
-/// tuple of the glyph at each location where the empty tuple is active.
-const DRAW_ZERO_PARAMS: Params = Params { allow_zero: true, max_glyphs: 2, ..DRAW_PARAMS };
+/// Regression stage for a repaired defect (fix: "gvar builder encoded a tuple without required deltas as 'all points'
+/// followed by no delta data"): a tuple without any required delta (all deltas zero and optional, which is what
+/// `iup_delta_optimize` returns for an unchanged glyph) was written as point count 0 with no delta bytes; skrifa failed
+/// to read such a tuple and then dropped the deltas of *every* tuple of the glyph wherever the empty tuple was active.
+/// Every case here has such a tuple next to ordinary ones; the other stages generate them at their natural rate.
+const DRAW_ZERO_PARAMS: Params = Params { max_glyphs: 2, ..DRAW_PARAMS };
 fn draw_zero_strategy() -> impl Strategy<Value = GvarCase> {
     (gvar_strategy(DRAW_ZERO_PARAMS), any::<u8>(), any::<u8>()).prop_map(|(mut c, at, region)| {
         let g = &mut c.glyphs[0];
@@ -1471,15 +1462,15 @@ fn draw_zero_strategy() -> impl Strategy<Value = GvarCase> {
     })
 }
 fn test_draw_zero(c: &GvarCase, stats: &Stats) -> CaseResult {
-    draw_check(c, DRAW_ZERO_PARAMS, stats).map_err(|f| match f.sig.strip_prefix("c10|draw-") {
-        Some(tail) => Fail::new(format!("c10|no-required-delta-tuple|draw-{tail}"), f.msg),
-        None => f,
+    draw_check(c, DRAW_ZERO_PARAMS, stats).map_err(|f| match f.sig.strip_prefix("c10|") {
+        Some(tail) if tail != "harness" => Fail::new(format!("c10|no-required-delta-tuple|{tail}"), f.msg),
+        _ => f,
     })
 }
 
 fn draw_check(c: &GvarCase, pr: Params, stats: &Stats) -> CaseResult {
     let naxes = c.regions[0].len();
-    let model = build_model(c, pr, stats)?;
+    let model = build_model(c, pr)?;
     let gvar_bytes = build_gvar(&model, naxes, c.perm)?;
     let mut cnt = Cnt::default();
     let (_dec, explicit) = check_table(&model, &gvar_bytes, &mut cnt)?;
@@ -1518,7 +1509,7 @@ fn draw_check(c: &GvarCase, pr: Params, stats: &Stats) -> CaseResult {
         let coords: Vec<F2Dot14> = loc.iter().map(|v| f2(*v)).collect();
         for (g, gm) in model.iter().enumerate() {
             let n = gm.coords.len() - 4;
-            let (refp, active) = reference(gm, &explicit[g], &infs[g], &loc);
+            let (refp, active) = reference(gm, &infs[g], &loc);
             cnt.add(match active {
                 0 => "draw|active-tuples=0",
                 1 => "draw|active-tuples=1",
@@ -1624,7 +1615,7 @@ fn draw_check(c: &GvarCase, pr: Params, stats: &Stats) -> CaseResult {
     cnt.flush(stats);
     if nontrivial || boundary_hit(&cnt) {
         stats.nontrivial(hash_json(c));
-        if stats.want_sample() && nontrivial {
+        if nontrivial && sample_slot(&DRAW_SAMPLES, 3, stats) {
             stats.sample(json!({"stage": "draw", "axes": naxes, "regions": c.regions, "locations": c.locs.iter().map(|l| resolve_loc(l, &c.regions)).collect::<Vec<_>>(),
                 "glyph_points": model.iter().map(|g| g.coords.len() - 4).collect::<Vec<_>>(), "tuples_per_glyph": model.iter().map(|g| g.tuples.len()).collect::<Vec<_>>()}));
         }
@@ -1659,19 +1650,19 @@ fn main() {
         ctx.index_stage("iup-exhaustive", Isolation::Threads, nblocks, |i| ex_block(&layout, i), test_ex_block);
     }
     if on("iup-random") {
-        ctx.prop_stage("iup-random", Isolation::Threads, ctx.n(30_000, 400_000), iup_strategy, test_iup);
+        ctx.prop_stage("iup-random", Isolation::Threads, ctx.n(50_000, 400_000), iup_strategy, test_iup);
     }
     if on("gvar-offsets") {
         ctx.prop_stage("gvar-offsets", Isolation::Threads, ctx.n(160, 1_000), offsets_strategy, test_offsets);
     }
     if on("draw") {
-        ctx.prop_stage("draw", Isolation::Threads, ctx.n(10_000, 100_000), || gvar_strategy(DRAW_PARAMS), test_draw);
+        ctx.prop_stage("draw", Isolation::Threads, ctx.n(14_000, 100_000), || gvar_strategy(DRAW_PARAMS), test_draw);
     }
     if on("draw-no-required") {
         ctx.prop_stage("draw-no-required", Isolation::Threads, ctx.n(300, 3_000), draw_zero_strategy, test_draw_zero);
     }
     if on("gvar-table") {
-        ctx.prop_stage("gvar-table", Isolation::Threads, ctx.n(6_000, 40_000), || gvar_strategy(TABLE_PARAMS), test_table);
+        ctx.prop_stage("gvar-table", Isolation::Threads, ctx.n(10_000, 40_000), || gvar_strategy(TABLE_PARAMS), test_table);
     }
     ctx.finish();
 }
